@@ -35,7 +35,8 @@ CHECK_DEADLOCK FALSE
 def run(ctx):
     th = ctx.thorough
     # (period, phase); the phase may exceed the period: the first toggle is at the phase, whatever its size
-    clocks = [(10, 5), (14, 3), (6, 13), (6, 6), (4, 9)] if th else [(10, 5), (14, 3), (6, 13)]
+    # a phase of 0: the first edges of both clock domains fall on t = 0, the instant the testbenches start at
+    clocks = [(10, 5), (14, 0), (6, 13), (14, 3), (6, 6), (4, 9)] if th else [(10, 5), (14, 0), (6, 13)]
     n_perm = 8 if th else 3
     total = 0
     for (period, phase) in clocks:
